@@ -125,7 +125,13 @@ def priorityOrderOK (before : St) (o : Obs) (newly : List Nat) : Bool :=
 def advance (fifo : Bool) (cands : List St) (f : St → Option St) : List St :=
   (cands.filterMap f).flatMap (quiesce fifo) |>.eraseDups
 
+/-- the error monitor has retired while a worker is still blocked handing it an error: nobody will ever receive it, the
+    worker never returns its token and whatever waits behind it never runs. -/
+def reportStuck (o : Obs) : List String :=
+  if o.mon == "gone" && o.wsend > 0 then ["C19.no_crash_no_hang", "C14.reporting_does_not_block_work"] else []
+
 def monAlways (cs : CaseSt) (o : Obs) : List String :=
+  reportStuck o ++
   (if atMostOnce o then [] else ["C04.at_most_once"]) ++
   (if workItemsOK cs.m o then [] else ["C04.workitems_exact"]) ++
   (if workersOK cs.m o then [] else ["C09.running_le_workers"]) ++
@@ -176,7 +182,7 @@ def step (cs : CaseSt) (op obs : String) : CaseSt × R :=
           (if atMostOnce o then [] else ["C04.at_most_once"]) ++
           (if workersOK m' o then [] else ["C09.running_le_workers"]) ++
           (if errorsOK m' o then [] else ["C14.at_most_once_same_value"]) ++
-          (if dequeuedNeverStart m' o cs.prevStarted then [] else ["C16.dequeue_nil_never_starts"]) ++
+          (if dequeuedNeverStart m' o cs.prevStarted then [] else ["C16.dequeue_nil_never_starts"]) ++ reportStuck o ++
           (match m'.stopAt with | some (_, n) => if o.started.all (· < n) then [] else ["C19.after_stop_never_run"] | none => [])
         ({ cs1 with prevStarted := o.started },
          { mon := free ++ (if kind == "final" && !sawDeq then (finalOK m' o).map (fun c => if c == "C04.never_dropped" && m'.stopAt.isSome then "C19.stop_runs_accepted_once" else c) else []),
